@@ -36,7 +36,7 @@ def keys():
 
 
 @st.composite
-def plans(draw, max_len=60, styles=("legalish", "survive", "chaos", "legal", "late_illegal", "solveish", "crowded"),
+def plans(draw, max_len=60, styles=("legalish", "survive", "chaos", "legal", "late_illegal", "solveish", "crowded", "solve"),
           min_len=1):
     style = draw(st.sampled_from(list(styles)))
     pool = STYLES[style]
